@@ -44,4 +44,14 @@ def main(argv=None) -> int:
 
 
 if __name__ == "__main__":
-    sys.exit(main())
+    try:
+        rc = main()
+    except SystemExit:
+        raise
+    except BaseException as exc:  # noqa: BLE001 - a failure of the machinery is never a verdict (exit 2, not 1)
+        import traceback
+
+        traceback.print_exc()
+        print("MACHINERY-ERROR %s: %s" % (type(exc).__name__, str(exc)[:300]), file=sys.stderr)
+        rc = 2
+    sys.exit(rc)
